@@ -1,6 +1,7 @@
 package fzf
 
 import (
+	"unicode/utf8"
 	"github.com/junegunn/fzf/src/algo"
 	"github.com/junegunn/fzf/src/tui"
 	"github.com/junegunn/fzf/src/util"
@@ -153,11 +154,14 @@ func zzH_C07_ansi() {
 		env := &zzEnv_ansiPlain{}
 		proc = zzLift_ansiPlain(env)
 	}
-	for rec := 0; rec < 2; rec++ {
+	for rec := 0; rec < zzv.CfgInt("recs"); rec++ {
 		n := zzv.Choose(0, zzv.CfgInt("nmax"))
 		s := zzString(n, zzv.CfgInt("bytes"))
 		chars, _ := proc([]byte(s))
 		zzv.Reach("processed")
+		if !utf8.ValidString(s) {
+			return // C07 speaks about valid UTF-8 input (invalid bytes become U+FFFD in the item text)
+		}
 		zzv.Assert("ansi-record-text-is-the-record-minus-sequences", chars.ToString() == zzRefStrip(s))
 		item := Item{text: chars}
 		zzv.Assert("ansi-output-is-the-stripped-record", item.AsString(true) == zzRefStrip(s))
